@@ -31,17 +31,18 @@ type c13Case struct {
 	Query  string             `json:"query_quoted,omitempty"`
 	NLP    bool               `json:"nlp,omitempty"`
 	Boosts map[string]float64 `json:"boosts,omitempty"`
+	Cap    int                `json:"top_terms_cap,omitempty"`
 	Files  []string           `json:"files,omitempty"`
 	Pkg    int                `json:"package_json,omitempty"`
 	Mk     int                `json:"makefile,omitempty"`
 	Order  []int              `json:"map_order,omitempty"`
 }
 
-var c13BoostWords = []string{"compress", "files", "git", "tar", "qzx", "list", "folder", "install", "find", "commit", "caf", "zzz"}
+var c13BoostWords = []string{"compress", "files", "git", "tar", "qzx", "list", "folder", "install", "find", "commit", "caf", "zzz", "dir", "ls", "grep"}
 
 func c13Search(db *database.Database, cs c13Case) (*lib.Violation, string) {
 	q, _ := strconv.Unquote(cs.Query)
-	base := Opts{Limit: len(db.Commands) + 5, UseNLP: cs.NLP, AllPlatforms: true}
+	base := Opts{Limit: len(db.Commands) + 5, UseNLP: cs.NLP, AllPlatforms: true, TopTermsCap: cs.Cap}
 	with := base
 	with.ContextBoosts = cs.Boosts
 	var a, b []resItem
@@ -280,46 +281,54 @@ func c13Run(c *lib.Ctx) {
 	qs := uQueries(uWords, 1)
 	two := uQueries([]string{"compress", "files", "git", "tar", "find", "list", "folder", "install"}, 2)
 	qs = append(qs, two[8:]...)
-	qs = append(qs, "compress files folder git tar find install list grep ls dir", "")
+	qs = append(qs, "compress files folder git tar find install list grep ls dir", "list dir ls grep install find tar git folder files compress qzx", "zip archive commit status log name count lines sort build create directory", "")
 	var idx int64
 	selfCheck := 0
 	for di, spec := range dbs {
-		if !c.Mine(int64(di)) {
-			continue
-		}
-		if c.Expired() {
-			return
-		}
-		db := spec.build(c)
-		for _, q := range qs {
+		var db *database.Database
+		for qi, q := range qs {
+			if !c.Mine(int64(di*len(qs) + qi)) {
+				continue
+			}
+			if c.Expired() {
+				return
+			}
+			if db == nil {
+				db = spec.build(c)
+			}
 			qq := strconv.Quote(q)
 			for _, nlp := range []bool{false, true} {
 				for _, bm := range maps {
-					cs := c13Case{Kind: "search", DB: spec, Query: qq, NLP: nlp, Boosts: bm}
-					v, obs := c13Search(db, cs)
-					c.Rep.Evaluations += 2
-					idx++
-					if selfCheck < 64 {
-						selfCheck++
-						if _, o2 := c13Search(db, cs); o2 != obs {
-							c.Fail("harness nondeterminism on %+v", cs)
+					for _, tcap := range []int{0, 5, 6} {
+						if tcap != 0 && len(refTokens(q)) <= tcap {
+							continue // the term cap only matters for queries longer than it
 						}
-					}
-					if v != nil {
-						c.Violate(*v)
-						continue
-					}
-					if strings.HasPrefix(obs, "changed") {
-						c.Rep.Nontrivial++
-						c.Count("boost_changed_scores", 1)
-						if nlp {
-							c.Count("boost_changed_scores_nlp", 1)
+						cs := c13Case{Kind: "search", DB: spec, Query: qq, NLP: nlp, Boosts: bm, Cap: tcap}
+						v, obs := c13Search(db, cs)
+						c.Rep.Evaluations += 2
+						idx++
+						if selfCheck < 64 {
+							selfCheck++
+							if _, o2 := c13Search(db, cs); o2 != obs {
+								c.Fail("harness nondeterminism on %+v", cs)
+							}
 						}
-					} else if len(obs) > 2 {
-						c.Count("boost_left_scores_unchanged", 1)
-					}
-					if idx%80000 == 21 {
-						c.Sample(map[string]any{"case": cs, "observed": obs})
+						if v != nil {
+							c.Violate(*v)
+							continue
+						}
+						if strings.HasPrefix(obs, "changed") {
+							c.Rep.Nontrivial++
+							c.Count("boost_changed_scores", 1)
+							if nlp {
+								c.Count("boost_changed_scores_nlp", 1)
+							}
+						} else if len(obs) > 2 {
+							c.Count("boost_left_scores_unchanged", 1)
+						}
+						if idx%80000 == 21 {
+							c.Sample(map[string]any{"case": cs, "observed": obs})
+						}
 					}
 				}
 			}
@@ -335,6 +344,21 @@ func c13Run(c *lib.Ctx) {
 			l = append(l, names[j])
 		}
 		listings = append(listings, l)
+	}
+	// every listing of 3 names in which two are markers of the same project type (a third marker can
+	// sort between them: de-duplication must not depend on adjacency)
+	for i, a := range names {
+		for j := i + 1; j < len(names); j++ {
+			b := names[j]
+			if c13Markers[a] == "" || c13Markers[a] != c13Markers[b] {
+				continue
+			}
+			for _, m := range names {
+				if m != a && m != b {
+					listings = append(listings, []string{a, b, m})
+				}
+			}
+		}
 	}
 	if c.Thorough() {
 		// all subsets of one representative marker per project type
@@ -416,7 +440,7 @@ func popcount(x int) int {
 func init() {
 	lib.Register(&lib.Check{
 		ID: "C13", Level: "model_checking",
-		Rule:      "(search) databases = 40-entry, 12-identical + all subsets of <=2 (quick) / <=3 (thorough) of 13 pool entries; queries = 20 one-word + 56 two-word + long + empty; boost maps = 12 words x factors {1,1.3,2,3}, all 66 two-word maps with factors {2,3}, a zero, a negative and an empty map; NLP off/on; each as a pair (without, with boosts) at Limit>=N: same candidate set, boosted-word entries never lower, other entries bit-identical. (analyzer) every listing of <=2 names from 51 marker / non-marker names (thorough: + all subsets of >=3 of 18 representative markers) x 8 package.json x 8 Makefile texts on a real tmpfs directory: determinism, no duplicate type, generic exactly when nothing recognised, no recognised type missed, finite boosts >=1, GetContextBoosts invariant under forced map orders. non-trivial = pairs whose scores differ / non-generic directories",
+		Rule:      "(search) databases = 40-entry, 12-identical + all subsets of <=2 (quick) / <=3 (thorough) of 13 pool entries; queries = 22 one-word + 56 two-word + three 11-12-word queries (each also with TopTermsCap 5 and 6, so that the term trimming is in play) + empty; boost maps = 15 words x factors {1,1.3,2,3}, all 105 two-word maps with factors {2,3}, a zero, a negative and an empty map; NLP off/on; each as a pair (without, with boosts) at Limit>=N: same candidate set, boosted-word entries never lower, other entries bit-identical. (analyzer) every listing of <=2 names from 51 marker / non-marker names + every listing of 3 names two of which are markers of the same project type (thorough: + all subsets of >=3 of 18 representative markers) x 8 package.json x 8 Makefile texts on a real tmpfs directory: determinism, no duplicate type, generic exactly when nothing recognised, no recognised type missed, finite boosts >=1, GetContextBoosts invariant under forced map orders. non-trivial = pairs whose scores differ / non-generic directories",
 		Assume:    []string{"map order pinned in searches; explored (deviation bound 1, reverse and rotate) in GetContextBoosts", "marker table copied from the analyzer's documented file names"},
 		QuickSecs: 150, ThorSecs: 1500,
 		Run: c13Run,
